@@ -197,7 +197,7 @@ def evaluate(case, out):
     from shangrla.raire.raire_utils import Contest as RContest, NENAssertion
 
     cvrs = si.raire_cvrs(case)
-    contest = RContest("c", list(case["cands"]), case["winner"], len(case["ballots"]) + case.get("tot_extra", 0), order=case["order_hint"] or [])
+    contest = RContest(case.get("contest_name", "c"), list(case["cands"]), case["winner"], len(case["ballots"]) + case.get("tot_extra", 0), order=case["order_hint"] or [])
     try:
         res = compute_raire_assertions(contest, cvrs, case["winner"], getattr(sample_estimator, case["asn"]), False)
     except Exception as e:  # noqa
